@@ -223,7 +223,7 @@ func main() {
 		childMain(c)
 		c.Finish()
 	}
-	c.Rule("scenarios of the end-to-end engine chosen for order (families: " + strings.Join(families, ", ") + "; batch sizes 5-20, memory window 4 with 300-byte chunks in half of them); " +
+	c.Rule("scenarios of the end-to-end engine chosen for order (families: " + strings.Join(families[:len(families)-1], ", ") + " (twice as often)" + "; batch sizes 5-20, memory window 4 with 300-byte chunks in half of them); " +
 		"non-trivial = a chunk was retransmitted, recovered after a restart or spilled to disk; distinct = scenario hash")
 	c.Assume("chunk ids embed wall-clock nanoseconds: a clock stepping backwards between restarts would break recovery order and is not provoked")
 	c.Assume("duplicates anywhere and any interleaving between different streams are allowed; only first arrivals are ordered")
